@@ -9,6 +9,8 @@ def mir_vcs():
          "run": lambda f, v, w: _mir.vc_rej_only_failed(f, v, w)},
         {"name": "rollback_and_save_rej_files: Ok only when the stack top is not of the rejected patch (no arm leaves the loop early)", "function": "rollback_and_save_rej_files", "target": "bin",
          "run": lambda f, v, w: _mir.vc_rej_pass_complete(f, v, w)},
+        {"name": "apply_modify (normal mode): every recorded hunk report comes from trying that hunk (no hunk written off after an earlier failure)", "function": "TextFilePatch::apply_modify", "target": "lib",
+         "run": lambda f, v, w: _mir.vc_every_hunk_tried(f, v, w)},
         {"name": "apply_worker: file patches of the broken patch are still attempted, later ones are not", "function": "apply_worker", "target": "bin",
          "run": lambda f, v, w: _mir.vc_worker_stop_strict(f, v, w)},
         {"name": "sequential: rollback (and rejects) of the failing patch happen before save", "function": "sequential::apply_patches", "target": "bin",
@@ -24,7 +26,7 @@ def spec(tier, seed):
         "mir_vcs": mir_vcs(),
         "level": "model_checking",
         "engine": "Kani/CBMC on write_rej_to + make_rej_filename; mirvc (z3) on the drivers' MIR for the guards",
-        "functions": k["functions"] + ["AppliedState::rollback_and_save_rej_files (MIR)", "parallel::apply_worker (MIR)", "sequential::apply_patches (MIR)"],
+        "functions": k["functions"] + ["TextFilePatch::apply_modify (MIR: every hunk tried)", "AppliedState::rollback_and_save_rej_files (MIR)", "parallel::apply_worker (MIR)", "sequential::apply_patches (MIR)"],
         "symbolic": k["symbolic"] + "; MIR: report.failed(), patch indices, earliest broken index",
         "bounds": dict(k["bounds"], loop_unrolling=mirvc.UNROLL),
         "assumptions": k["assumptions"] + ["MIR VCs: callees havoc'd except the model table; candidates replayed through the real binary"],
